@@ -90,6 +90,7 @@ package algo
 // lies at or after r1 - so every embedding of the pattern lies inside [r0, r1).
 //@ func asciiFuzzyIndex
 //@ property C02 C03 C05
+//@ pure
 //@ requires input != nil && validChars(input) && len(pattern) >= 1 && validRunes(pattern)
 //@ ensures !input.inBytes ==> r0 == 0 && r1 == clen(input)
 //@ ensures r0 < 0 ==> r0 == -1 && r1 == -1
@@ -169,3 +170,47 @@ package algo
 //@   invariant forall(k, 0, iter, foldu(caseSensitive, normalize, at(text, diff + k)) == pattern[k])
 //@   invariant forall(k, 0, iter, hitp(text, diff + k, pattern, k, caseSensitive, normalize))
 //@   use occ_g(text, pattern, caseSensitive, normalize, diff, iter)
+
+// ---------------------------------------------------------------- exact match
+// Scan coordinates: sc(i, n, fwd) is the text (or pattern) index visited at scan step i.
+//@ spec func sc(i int, n int, fwd bool) int = fwd ? i : n - i - 1
+// occp(.., s, j): the first j scan steps starting at scan position s match the first j scan steps of the pattern.
+//@ spec func occp(c *util.Chars, p []rune, cs bool, nz bool, fwd bool, s int, j int) bool = j <= 0 ? true : (occp(c, p, cs, nz, fwd, s, j - 1) && hitp(c, sc(s + j - 1, clen(c), fwd), p, sc(j - 1, len(p), fwd), cs, nz)) decreases j
+// text coordinate of the occurrence that starts at scan position s
+//@ spec func tstart(s int, n int, m int, fwd bool) int = fwd ? s : n - s - m
+
+//@ lemma occp_down(c *util.Chars, p []rune, cs bool, nz bool, fwd bool, s int, j int, i int) induction j
+//@ property C02
+//@ requires 0 <= i && i <= j && occp(c, p, cs, nz, fwd, s, j)
+//@ ensures occp(c, p, cs, nz, fwd, s, i)
+
+//@ lemma occp_hits(c *util.Chars, p []rune, cs bool, nz bool, fwd bool, s int, j int) induction j
+//@ property C02
+//@ requires 0 <= j && occp(c, p, cs, nz, fwd, s, j)
+//@ ensures fwd ==> forall(k, 0, j, hitp(c, s + k, p, k, cs, nz))
+//@ ensures !fwd ==> forall(k, 0, j, hitp(c, clen(c) - s - k - 1, p, len(p) - k - 1, cs, nz))
+
+//@ func exactMatchNaive
+//@ property C02 C01
+//@ requires text != nil && validChars(text) && validRunes(pattern) && len(pattern) <= 2147483648
+//@ ensures r1 == nil
+//@ ensures len(pattern) == 0 ==> r0.Start == 0 && r0.End == 0
+//@ ensures r0.Start < 0 ==> r0.Start == -1 && r0.End == -1
+//@ ensures len(pattern) > 0 && r0.Start >= 0 ==> r0.End == r0.Start + len(pattern) && r0.End <= clen(text)
+//@ ensures len(pattern) > 0 && r0.Start >= 0 ==> occp(text, pattern, caseSensitive, normalize, forward, tstart(r0.Start, clen(text), len(pattern), forward), len(pattern))
+//@ ensures forward && len(pattern) > 0 && r0.Start >= 0 ==> forall(k, 0, len(pattern), hitp(text, r0.Start + k, pattern, k, caseSensitive, normalize))
+//@ ensures !forward && len(pattern) > 0 && r0.Start >= 0 ==> forall(k, 0, len(pattern), hitp(text, r0.Start + k, pattern, k, caseSensitive, normalize))
+//@ ensures len(pattern) > 0 && !boundaryCheck && r0.Start < 0 && asciiFuzzyIndex_r0(text, pattern, caseSensitive) >= 0 ==> forall(s, 0, clen(text) - len(pattern) + 1, !occp(text, pattern, caseSensitive, normalize, forward, s, len(pattern)))
+//@ note completeness is stated relative to the ASCII pre-filter: that asciiFuzzyIndex returns -1 only when no occurrence exists is not proved (listed as unverified)
+//@ use occp_hits(text, pattern, caseSensitive, normalize, forward, tstart(r0.Start, clen(text), len(pattern), forward), len(pattern))
+//@ use @"index -= pidx" occp_down(text, pattern, caseSensitive, normalize, forward, index - pidx, lenPattern, pidx + 1)
+//@ use @"calculateScore(" occp_hits(text, pattern, caseSensitive, normalize, forward, bestPos - lenPattern + 1, lenPattern)
+//@ use @"calculateScore(" occ_g(text, pattern, caseSensitive, normalize, sidx, lenPattern)
+//@ loop 1
+//@   invariant lenRunes == clen(text) && lenPattern == len(pattern) && 1 <= lenPattern && lenPattern <= lenRunes
+//@   invariant 0 <= pidx && pidx < lenPattern && pidx <= index && index <= lenRunes
+//@   invariant occp(text, pattern, caseSensitive, normalize, forward, index - pidx, pidx)
+//@   invariant 0 <= bonus && bonus <= 10 && -1 <= bestBonus && bestBonus <= 10 && (bestPos < 0) == (bestBonus == -1)
+//@   invariant bestPos >= 0 ==> lenPattern - 1 <= bestPos && bestPos < lenRunes && occp(text, pattern, caseSensitive, normalize, forward, bestPos - lenPattern + 1, lenPattern)
+//@   invariant !boundaryCheck && bestPos < 0 ==> forall(s, 0, index - pidx, !occp(text, pattern, caseSensitive, normalize, forward, s, lenPattern))
+//@   decreases (lenRunes - (index - pidx)) * (lenPattern + 1) + (lenPattern - pidx)
